@@ -901,6 +901,8 @@ class Context(MetadataContextMixin, object):
         else:
             state = State().with_data(input_value)
             state.query = ""
+            # everything computed from an injected value depends on it: never to be cached under the query text
+            state.set_volatile(True)
             return state
 
     @classmethod
